@@ -605,7 +605,8 @@ impl Transformer {
     ) -> Result<()> {
         let mut new_svg_attrs = AttrMap::new();
         let mut orig_svg_attrs = HashMap::new();
-        if let OutputEvent::Start(orig_svg) = first_svg {
+        // Note an empty root (`<svg/>`) is also written as a start tag; see `postprocess()`
+        if let OutputEvent::Start(orig_svg) | OutputEvent::Empty(orig_svg) = first_svg {
             new_svg_attrs = orig_svg.attrs.clone();
             orig_svg_attrs = orig_svg.get_attrs();
         }
@@ -758,6 +759,7 @@ impl Transformer {
         }
 
         let mut has_svg_element = false;
+        let mut empty_root = false;
         if let (pre_svg, Some(first_svg), remain) = events.partition("svg") {
             // Only a root <svg> is given root attributes; one which follows (or is
             // nested in) other elements is part of a fragment.
@@ -765,6 +767,7 @@ impl Transformer {
                 .iter()
                 .any(|ev| matches!(ev, OutputEvent::Start(_) | OutputEvent::Empty(_)));
             if is_root {
+                empty_root = matches!(first_svg, OutputEvent::Empty(_));
                 pre_svg.write_to(writer)?;
                 self.write_root_svg(first_svg, bbox, writer)?;
                 events = remain;
@@ -792,6 +795,12 @@ impl Transformer {
         // i.e. this is a full SVG document rather than a fragment.
         if has_svg_element && self.context.config.add_auto_styles {
             self.write_auto_styles(&mut events, writer)?;
+        }
+
+        if empty_root {
+            // the root was an empty element, written as a start tag so that the
+            // generated comments / styles above are inside it.
+            OutputList::from(vec![OutputEvent::End("svg".to_owned())]).write_to(writer)?;
         }
 
         events.write_to(writer)
